@@ -333,14 +333,15 @@ fn judge_key(op: &[&str], out: &str) -> Verdict {
 // ---------------------------------------------------------------------------------------------
 
 /// signature bodies that end in the last byte of the production budget (625 / 1239 bytes), every alignment of the last
-/// coefficient: what `sign` hands to `compress` for the rare signatures that use all of the fixed size
+/// coefficient, and bodies 1..8 bits too long for it: what `sign` hands to `compress` for the rare signatures that use
+/// all of the fixed size or just miss it
 pub fn full_budget_bodies(tier: &str, rng: &mut Prng, ops: &mut Vec<Case>) {
     for (n, l) in [(512usize, 625usize), (1024, 1239)] {
-        for r in 0..8usize {
+        for r in -8i64..8 {
             for _ in 0..(if tier == "thorough" { 6 } else { 1 }) {
                 let mut v: Vec<i32> = (0..n).map(|_| rng.range(-127, 127) as i32).collect();
                 let mut bits = 9 * n;
-                let target = 8 * l - r;
+                let target = (8 * l as i64 - r) as usize;
                 while bits < target {
                     let j = rng.below(n as u64) as usize;
                     if v[j].abs() < 1900 {
